@@ -7,6 +7,7 @@ import (
 	"github.com/pion/rtcp"
 
 	"verifharness/internal/core"
+	"verifharness/internal/gen"
 	"verifharness/internal/mon"
 	"verifharness/internal/ref"
 )
@@ -293,6 +294,31 @@ func runC14(c *core.Ctx) {
 	})
 	// (5) SSRC lists of every length 0..255
 	c.Exhaustive("SSRC list lengths 0..255", 256)
+	// the count octet against the number of entries actually present, beyond 255 entries too (where
+	// a comparison in 8 bits wraps): a frame is accepted exactly when the octet is the number
+	entriesSet := []int{0, 1, 2, 3, 254, 255, 256, 257, 258, 259, 300, 511, 512, 513, 767, 768, 1023, 1024, 1025, 4096, 16378}
+	c.Section("count-octet", uint64(len(entriesSet))*8, func(cs *core.Case) {
+		r := cs.R
+		e := entriesSet[cs.Idx/8]
+		cnt := []int{e % 256, e % 256, (e + 1) % 256, (e + 255) % 256, 0, 255, r.Intn(256), e % 256}[cs.Idx%8]
+		b := make([]byte, 20+4*e)
+		copy(b, []byte{0x8F, 206, 0, 0, 0, 0, 0, 1, 0, 0, 0, 0, 'R', 'E', 'M', 'B', byte(cnt), 0x04, 0, 1})
+		copy(b[20:], r.Bytes(4*e))
+		gen.FitLength(b)
+		var d rtcp.ReceiverEstimatedMaximumBitrate
+		var err error
+		if pan, v, st := core.Guard(func() { err = d.Unmarshal(cloneBytes(b)) }); pan {
+			cs.Fail("panic/Unmarshal", core.W{"entries": e, "count_octet": cnt, "panic": v, "stack": st})
+			return
+		}
+		cs.Eval(1)
+		cs.Distinct(core.Digest(b[:20], []byte{byte(e >> 8), byte(e)}))
+		want := e <= 255 && cnt == e
+		ok := (err == nil) == want && (err != nil || len(d.SSRCs) == e)
+		cs.Check(ok, "count-octet", func() core.W {
+			return core.W{"entries_present": e, "count_octet": cnt, "input_head_hex": mon.Hex(b, 24), "error": errStr(err), "decoded_entries": len(d.SSRCs), "expected_accept": want}
+		})
+	})
 	c.Section("ssrc-lists", 256*c.N(8, 200), func(cs *core.Case) {
 		r := cs.R
 		n := int(cs.Idx % 256)
